@@ -7,7 +7,8 @@
     [StronglySorted (fun a b => cmp (key a) (key b) <= 0)]. *)
 From Coq Require Import List ZArith Bool Arith Lia Sorting.Sorted Sorting.Permutation.
 From PQ Require Import Merge.Model Merge.Instance Merge.AbstractProofs Merge.RunLengthProofs
-  Merge.Merge2Proofs Merge.DedupeProofs Merge.SegmentsProofs Merge.TreeProofs Merge.InstanceProofs.
+  Merge.Merge2Proofs Merge.DedupeProofs Merge.SegmentsProofs Merge.TreeProofs Merge.InstanceProofs
+  Merge.Refine Merge.RefineMergeProofs Merge.RefineCutProofs Merge.RefineProofs Merge.ProgressProofs.
 Import ListNotations.
 Open Scope Z_scope.
 
@@ -215,6 +216,124 @@ Section C09.
   Theorem C09_sort_ranges_contract : forall rs : list (range K),
     Permutation rs (sort_ranges cmp rs) /\ by_min K cmp (sort_ranges cmp rs).
   Proof. exact (sort_ranges_spec K cmp cmp_opp cmp_trans). Qed.
+
+  (** (8) Refinement of an overlapping segment (merge_refine.go).  [ts] are the
+      row groups of the segment in the order of the segment: the rows of each,
+      cut at the page boundaries of its first sorting column ([t_pages], any
+      layout), its bounds minRow / maxRow and whether its page index supports
+      the cut lookups.  [col0 k] is the value of the first sorting column of
+      the key [k], ordered by [cmp0]; a strict inequality on it is a strict
+      inequality of the keys.  When refineSegment returns a plan -- lone
+      stretches of at least [thr] rows sliced off at page boundaries found by
+      cutAbove / cutBelow, the regions in between merged -- reading the plan
+      (a single part as it is, several parts through the stable merge)
+      delivers exactly the rows of the stable merge of the whole segment, in
+      the same order: same sequence, ties included (on equal keys the row of
+      the row group that comes first in the segment goes first). *)
+  Theorem C09_refine_plan_equiv :
+    forall (V : Type) (col0 : K -> V) (cmp0 : V -> V -> Z),
+    (forall a b, cmp0 a b < 0 <-> cmp0 b a > 0) ->
+    (forall a b d, cmp0 a b <= 0 -> cmp0 b d <= 0 -> cmp0 a d <= 0) ->
+    (forall a b, cmp0 (col0 a) (col0 b) < 0 -> cmp a b < 0) ->
+    forall (thr : nat) (ts : list (target K)) (dk : K) (plan : list piece),
+    (forall j, (j < length ts)%nat ->
+       let t := tgt K ts dk j in
+       sorted (t_rows t) /\ t_rows t <> [] /\
+       (forall r, In r (t_rows t) -> cmp (t_min t) (key r) <= 0 /\ cmp (key r) (t_max t) <= 0) /\
+       (t_cuts t = true -> Forall (fun pg => pg <> []) (t_pages t))) ->
+    refine_segment K cmp V col0 cmp0 true thr ts dk = Some plan ->
+    refined_rows K cmp ts dk plan = segment_rows cmp ts.
+  Proof.
+    intros V col0 cmp0 H1 H2 H3 thr ts dk plan Hok.
+    exact (refine_plan_equiv K cmp V col0 cmp0 cmp_opp cmp_trans H1 H2 H3 thr ts dk Hok plan).
+  Qed.
+
+  (* the reference merge of the statement above is a merge: a complete run of
+     the abstract scheduler of (1) *)
+  Theorem C09_stable_merge_is_a_run : forall st : list (list row),
+    Forall sorted st -> exists st', sched cmp st (smerge cmp st) st' /\ all_empty K st'.
+  Proof. exact (smerge_sched K cmp cmp_opp cmp_trans). Qed.
+
+  (** ... and whatever merge procedure reads the regions -- each [out] of
+      [outs] is a complete run of the abstract scheduler on the parts of its
+      piece, which is what mergedRowReader2 and mergedRowReader deliver by (3)
+      and (5) -- the concatenation of what the plan delivers is a complete run
+      of the abstract scheduler on the whole segment; so by (1) it is sorted,
+      a permutation of the rows of the segment, and keeps every row group's
+      rows in their order. *)
+  Theorem C09_refine_plan_any_merge :
+    forall (V : Type) (col0 : K -> V) (cmp0 : V -> V -> Z),
+    (forall a b, cmp0 a b < 0 <-> cmp0 b a > 0) ->
+    (forall a b d, cmp0 a b <= 0 -> cmp0 b d <= 0 -> cmp0 a d <= 0) ->
+    (forall a b, cmp0 (col0 a) (col0 b) < 0 -> cmp a b < 0) ->
+    forall (thr : nat) (ts : list (target K)) (dk : K) (plan : list piece) (outs : list (list row)),
+    (forall j, (j < length ts)%nat ->
+       let t := tgt K ts dk j in
+       sorted (t_rows t) /\ t_rows t <> [] /\
+       (forall r, In r (t_rows t) -> cmp (t_min t) (key r) <= 0 /\ cmp (key r) (t_max t) <= 0) /\
+       (t_cuts t = true -> Forall (fun pg => pg <> []) (t_pages t))) ->
+    refine_segment K cmp V col0 cmp0 true thr ts dk = Some plan ->
+    Forall2 (fun pc out => exists st', sched cmp (map (part_rows K ts dk) pc) out st' /\ all_empty K st') plan outs ->
+    (exists st', sched cmp (map (@t_rows K) ts) (concat outs) st' /\ all_empty K st') /\
+    (tagged K (map (@t_rows K) ts) ->
+       sorted (concat outs) /\ Permutation (concat (map (@t_rows K) ts)) (concat outs) /\
+       forall i, of_input K i (concat outs) = nth i (map (@t_rows K) ts) []).
+  Proof.
+    intros V col0 cmp0 H1 H2 H3 thr ts dk plan outs Hok Hplan Hruns.
+    destruct (refine_plan_sched K cmp V col0 cmp0 cmp_opp cmp_trans H1 H2 H3 thr ts dk Hok plan outs Hplan Hruns)
+      as [st' [Hrun He]].
+    split; [exists st'; split; assumption|]. intros Ht.
+    apply (sched_complete_correct K cmp cmp_opp cmp_trans _ _ _ Hrun He); [|exact Ht].
+    rewrite Forall_forall. intros l Hl. apply in_map_iff in Hl. destruct Hl as [t [<- Hin]].
+    apply In_nth_error in Hin. destruct Hin as [j Hj].
+    assert (Hlt : (j < length ts)%nat) by (apply nth_error_Some; congruence).
+    destruct (Hok j Hlt) as [Hs _]. unfold tgt in Hs.
+    now rewrite (nth_error_nth' _ _ _ (no_target K dk) Hj) in Hs.
+  Qed.
+
+  (** the cut lookups are conservative for every page layout and whatever page
+      sort.Search lands on: all rows at or after cutAbove(k) are strictly above
+      [k], all rows before cutBelow(k) strictly below *)
+  Theorem C09_cut_lookups_conservative :
+    forall (V : Type) (col0 : K -> V) (cmp0 : V -> V -> Z),
+    (forall a b, cmp0 a b < 0 <-> cmp0 b a > 0) ->
+    (forall a b d, cmp0 a b <= 0 -> cmp0 b d <= 0 -> cmp0 a d <= 0) ->
+    (forall a b, cmp0 (col0 a) (col0 b) < 0 -> cmp a b < 0) ->
+    forall (t : target K) (k : K), sorted (t_rows t) -> Forall (fun pg => pg <> []) (t_pages t) ->
+    (forall r, In r (skipn (cut_above_gen K V col0 cmp0 true t k) (t_rows t)) -> cmp k (key r) < 0) /\
+    (forall r, In r (firstn (cut_below K V col0 cmp0 t k) (t_rows t)) -> cmp (key r) k < 0).
+  Proof.
+    intros V col0 cmp0 H1 H2 H3 t k Hs Hp. split; intros r.
+    - exact (cut_above_safe K cmp V col0 cmp0 cmp_opp cmp_trans H1 H2 H3 t Hs Hp k r).
+    - exact (cut_below_safe K cmp V col0 cmp0 cmp_opp cmp_trans H1 H2 H3 t Hs Hp k r).
+  Qed.
+
+  (** (9) Progress.  The sources honour the RowReader contract (a call with
+      room returns a row or io.EOF: [buf_read]); then every ReadRows call with
+      room on a merged reader returns at least one row or io.EOF -- for
+      mergedRowReader2 in every state, for mergedRowReader after any history
+      of calls on sorted inputs -- and with more calls than rows, each with
+      room, io.EOF has been reported: the merge terminates. *)
+  Theorem C09_merge2_progress : forall (m : m2 K) n out eof m',
+    (1 <= n)%nat -> read_rows2 K cmp m n = (out, eof, m') -> out <> [] \/ eof = true.
+  Proof. exact (read_rows2_progress K cmp). Qed.
+
+  Theorem C09_merge2_terminates : forall (in0 in1 : list row) ch0 ch1 batches outs eof m',
+    sorted in0 -> sorted in1 -> Forall (fun n => (1 <= n)%nat) batches ->
+    (length in0 + length in1 < length batches)%nat ->
+    merge2 cmp in0 in1 ch0 ch1 batches = (outs, eof, m') -> eof = true.
+  Proof. exact (merge2_terminates K cmp cmp_opp cmp_trans). Qed.
+
+  Theorem C09_mergeK_progress : forall (ins : list (list row)) chunks history outs eof m' n out e m'',
+    Forall sorted ins -> mergek cmp ins chunks history = (outs, eof, m') ->
+    (1 <= n)%nat -> read_rowsk K cmp m' n = (out, e, m'') -> out <> [] \/ e = true.
+  Proof. exact (mergek_progress K cmp cmp_opp cmp_trans). Qed.
+
+  Theorem C09_mergeK_terminates : forall (ins : list (list row)) chunks batches outs eof m',
+    Forall sorted ins -> Forall (fun n => (1 <= n)%nat) batches ->
+    (length (concat ins) < length batches)%nat ->
+    mergek cmp ins chunks batches = (outs, eof, m') -> eof = true.
+  Proof. exact (mergek_terminates K cmp cmp_opp cmp_trans). Qed.
 End C09.
 
 Print Assumptions C09_merge_abstract_correct.
@@ -237,6 +356,14 @@ Print Assumptions C09_dedupe_batch_independent.
 Print Assumptions C09_segments_pairwise_ordered.
 Print Assumptions C09_segments_concat_sorted.
 Print Assumptions C09_sort_ranges_contract.
+Print Assumptions C09_refine_plan_equiv.
+Print Assumptions C09_stable_merge_is_a_run.
+Print Assumptions C09_refine_plan_any_merge.
+Print Assumptions C09_cut_lookups_conservative.
+Print Assumptions C09_merge2_progress.
+Print Assumptions C09_merge2_terminates.
+Print Assumptions C09_mergeK_progress.
+Print Assumptions C09_mergeK_terminates.
 
 (** The comparator the library builds (compareRowsFuncOfColumnValues): tuples
     of optional integers, each column ascending or descending with nulls first
@@ -331,3 +458,84 @@ Proof.
 Qed.
 
 Print Assumptions C09_pinned_segments_refuted.
+
+(** ** Refinement: non-vacuity and the ">=" variant of cutAbove
+
+    Two row groups sorted on two ascending integer columns, pages of two
+    rows, threshold 2.  A covers first-column values 1..5 and ends with
+    (5,1), (5,9); B starts with four rows of first-column value 5 (two pages
+    whose earliest value is 5 = the first column of A's maxRow) and goes on
+    to 9.  The plan: A's rows [0,4) as they are, then the merge of A's rows
+    [4,6) with B's rows [0,4), then B's rows [4,8) as they are. *)
+Definition ex_rcfg : list colcfg := [(false, false); (false, false)].
+Definition ex_rA : list keyL :=
+  [[Some 1; Some 0]; [Some 2; Some 0]; [Some 3; Some 0]; [Some 4; Some 0]; [Some 5; Some 1]; [Some 5; Some 9]].
+Definition ex_rB : list keyL :=
+  [[Some 5; Some 0]; [Some 5; Some 2]; [Some 5; Some 3]; [Some 5; Some 4];
+   [Some 6; Some 0]; [Some 7; Some 0]; [Some 8; Some 0]; [Some 9; Some 0]].
+Definition ex_rts : list (target keyL) :=
+  [mkTarget (split_pages [2; 2; 2]%nat (tag 0 ex_rA)) [Some 1; Some 0] [Some 5; Some 9] true;
+   mkTarget (split_pages [2; 2; 2; 2]%nat (tag 1 ex_rB)) [Some 5; Some 0] [Some 9; Some 0] true].
+
+Example C09_ex_refine_plan :
+  refine_segment keyL (cmpL ex_rcfg) (option Z) col0L (cmp0L ex_rcfg) true 2 ex_rts [] =
+  Some [[mkPart 0 0 4]; [mkPart 0 4 2; mkPart 1 0 4]; [mkPart 1 4 4]]%nat.
+Proof. vm_compute. reflexivity. Qed.
+
+(* the hypotheses of C09_refine_plan_equiv hold of this segment *)
+Example C09_ex_refine_hyps : forall j, (j < length ex_rts)%nat ->
+  let t := tgt keyL ex_rts [] j in
+  sorted keyL (cmpL ex_rcfg) (t_rows t) /\ t_rows t <> [] /\
+  (forall r, In r (t_rows t) -> cmpL ex_rcfg (t_min t) (key r) <= 0 /\ cmpL ex_rcfg (key r) (t_max t) <= 0) /\
+  (t_cuts t = true -> Forall (fun pg => pg <> []) (t_pages t)).
+Proof.
+  intros [|[|j]] Hj; [| |cbn in Hj; lia]; cbn zeta.
+  - change (t_rows (tgt keyL ex_rts [] 0)) with (tag 0 ex_rA). split; [|split; [|split]].
+    + apply keys_sorted_sorted. apply sortedb_Sorted. reflexivity.
+    + discriminate.
+    + intros r Hr. cbn in Hr. repeat (destruct Hr as [<-|Hr]; [vm_compute; split; discriminate|]). contradiction.
+    + intros _. cbn. repeat (constructor; [discriminate|]). constructor.
+  - change (t_rows (tgt keyL ex_rts [] 1)) with (tag 1 ex_rB). split; [|split; [|split]].
+    + apply keys_sorted_sorted. apply sortedb_Sorted. reflexivity.
+    + discriminate.
+    + intros r Hr. cbn in Hr. repeat (destruct Hr as [<-|Hr]; [vm_compute; split; discriminate|]). contradiction.
+    + intros _. cbn. repeat (constructor; [discriminate|]). constructor.
+Qed.
+
+(* so the plan and the merge of the whole segment deliver the same rows; they are: *)
+Example C09_ex_refine_rows :
+  refined_rows keyL (cmpL ex_rcfg) ex_rts []
+    [[mkPart 0 0 4]; [mkPart 0 4 2; mkPart 1 0 4]; [mkPart 1 4 4]]%nat = segment_rows (cmpL ex_rcfg) ex_rts /\
+  ids (segment_rows (cmpL ex_rcfg) ex_rts) =
+    [(0, 0); (0, 1); (0, 2); (0, 3); (1, 0); (0, 4); (1, 1); (1, 2); (1, 3); (0, 5); (1, 4); (1, 5); (1, 6); (1, 7)]%nat.
+Proof.
+  split; [|vm_compute; reflexivity].
+  exact (refine_plan_equiv_keys (false, false) [(false, false)] 2 ex_rts _ C09_ex_refine_hyps C09_ex_refine_plan).
+Qed.
+
+(** With "orderCompare(earliest(p), kv) >= 0" in cutAbove (the search then
+    stops at the first page whose earliest value is at or above the key: a
+    page that starts with the boundary value lands above the cut) the same
+    segment, which satisfies every hypothesis of C09_refine_plan_equiv, gets
+    a plan that slices B off whole behind A's remainder: (5,9) of A is
+    delivered before (5,0) of B.  The rows of that plan are not sorted and
+    differ from the merge of the segment. *)
+Theorem C09_cutabove_ge_refuted :
+  exists (ts : list (target keyL)) (plan : list piece),
+    (forall j, (j < length ts)%nat ->
+       let t := tgt keyL ts [] j in
+       sorted keyL (cmpL ex_rcfg) (t_rows t) /\ t_rows t <> [] /\
+       (forall r, In r (t_rows t) -> cmpL ex_rcfg (t_min t) (key r) <= 0 /\ cmpL ex_rcfg (key r) (t_max t) <= 0) /\
+       (t_cuts t = true -> Forall (fun pg => pg <> []) (t_pages t))) /\
+    refine_segment keyL (cmpL ex_rcfg) (option Z) col0L (cmp0L ex_rcfg) false 2 ts [] = Some plan /\
+    refined_rows keyL (cmpL ex_rcfg) ts [] plan <> segment_rows (cmpL ex_rcfg) ts /\
+    ~ Sorted (fun a b => cmpL ex_rcfg a b <= 0) (map (@key keyL) (refined_rows keyL (cmpL ex_rcfg) ts [] plan)).
+Proof.
+  exists ex_rts, [[mkPart 0 0 4]; [mkPart 0 4 2]; [mkPart 1 0 8]]%nat.
+  split; [exact C09_ex_refine_hyps|]. split; [vm_compute; reflexivity|]. split.
+  - vm_compute. discriminate.
+  - rewrite <- sortedb_Sorted. vm_compute. discriminate.
+Qed.
+
+Print Assumptions C09_ex_refine_rows.
+Print Assumptions C09_cutabove_ge_refuted.
